@@ -109,6 +109,18 @@ def eval_formula(n, var_id, b):
             return l | r
         if op == "^":
             return l ^ r
+    if k == "match":
+        v = eval_formula(n["scrut"], var_id, b)
+        for arm in n["arms"]:
+            if "guard" in arm:
+                raise ValueError("match guard")
+            try:
+                vals, ca = T.pat_values(arm["pat"], None)
+            except T.Unreadable as e:
+                raise ValueError(str(e))
+            if ca or v in vals:
+                return eval_formula(arm["body"], var_id, b)
+        raise ValueError("non-exhaustive match")
     raise ValueError("formula node " + str(k))
 
 
@@ -148,13 +160,15 @@ def check_floor(ctx, F, cfg):
     if not need("result-shape", node.get("k") == "binary" and node["op"] == "+", "the result is not `lower_bound + position`: %s" % A.desc(node)[:120]):
         return False
     l, r = A.subst(node["l"]), A.subst(node["r"])
-    lower, pos = (l, r) if r.get("callee", "").endswith("unwrap_unchecked") or r.get("callee", "").endswith("::unwrap") else (r, l)
+    UNW = ("core::option::Option::<T>::unwrap_unchecked", "core::option::Option::<T>::unwrap", "core::option::Option::<T>::unwrap_or",
+           "core::option::Option::<T>::unwrap_or_default", "core::option::Option::<T>::expect")
+    lower, pos = (l, r) if r.get("callee") in UNW else (r, l)
     if not need("lower", lower.get("k") == "mcall" and lower.get("callee") == "core::num::<impl usize>::saturating_sub" and A.desc(lower["recv"]) == I and isinstance(H.lit(lower["args"][0]), int),
                 "lower bound is not index.saturating_sub(K): %s" % A.desc(lower)[:100]):
         return False
     K = H.lit(lower["args"][0])
     need("window-size", K + 1 >= 4, "the search window has %d positions; a UTF-8 character can be 4 bytes long, so the boundary may lie outside the window (undefined behaviour in unwrap_unchecked)" % (K + 1), where=H.line(lower))
-    if not need("position", pos.get("k") == "mcall" and pos.get("callee") in ("core::option::Option::<T>::unwrap_unchecked", "core::option::Option::<T>::unwrap"), "position is not an unwrap of the search result"):
+    if not need("position", pos.get("k") == "mcall" and pos.get("callee") in UNW, "position is not the unwrapped search result"):
         return False
     srch = A.subst(pos["recv"])
     if not need("search-last", srch.get("k") == "mcall" and srch.get("callee") == "core::iter::traits::iterator::Iterator::rposition",
